@@ -1257,8 +1257,12 @@ func (m *Manager) handleMessage(tm *TaskmanMessage) error {
 
 		// This will check if the task update is from a reconciliation, as well as whether the task
 		// is in a state in which a mesos Kill call is possible.
-		// Reconcilation tasks are not part of the taskman.roster
+		// Only tasks that are not part of the taskman.roster are killed: on the first subscription
+		// of a core's life these are the tasks left behind by a previous life. After a mere
+		// re-subscription (dropped event stream) the master also reports the tasks of our own live
+		// environments, which are in the roster and must be left alone.
 		if mesosStatus.GetReason().String() == "REASON_RECONCILIATION" &&
+			m.GetTask(mesosStatus.GetTaskID().Value) == nil &&
 			(mesosState == mesos.TASK_STAGING ||
 				mesosState == mesos.TASK_STARTING ||
 				mesosState == mesos.TASK_RUNNING ||
